@@ -56,6 +56,15 @@ def make_request(rng, ins, outs, mode):
             if rng.random() < 0.8:
                 o[f"ot{j}"] = B.op17.identity(a)
         return dict(items), o, drop
+    if mode == "output_name_clash":
+        # an output requested under the name of an input, or under a name the builder generates for some value: either build
+        # refuses, or the output carries exactly that name
+        o = dict(outs)
+        k0 = rng.choice(list(o))
+        v0 = o.pop(k0)
+        pool = [k for k, _ in items] + ["Add_0_C", "Relu_0_Y", "Mul_0_C", "Constant_0_output", "If_0_outputs_0", "Introduce_0_outputs_0", "Sub_0_C"]
+        o[rng.choice(pool)] = v0
+        return dict(items), o, drop
     if mode == "generated_name_of_missing":
         # a used argument is NOT listed, while unused arguments are listed under the names the builder would generate for it
         dep = B.dependency_arguments(list(outs.values()))
@@ -132,7 +141,7 @@ def direct_oracle(c: B.Case):
 def gen_cases(run: Run, n: int):
     rng = run.rng
     g = B.GenX(rng, leak_p=0.0)
-    modes = ["asis"] * 2 + ["after_failed_build"] * 3 + ["permute"] * 4 + ["subset"] * 3 + ["extra"] * 3 + ["varied_types"] * 4 + ["generated_name_of_missing"] * 2 + ["bad_input_kind", "bad_output_kind", "non_argument_input", "no_outputs"]
+    modes = ["asis"] * 2 + ["after_failed_build"] * 3 + ["permute"] * 4 + ["subset"] * 3 + ["extra"] * 3 + ["varied_types"] * 4 + ["generated_name_of_missing"] * 2 + ["output_name_clash"] * 3 + ["bad_input_kind", "bad_output_kind", "non_argument_input", "no_outputs"]
     cases = []
     while len(cases) < n:
         ins, outs = g.program()
@@ -156,7 +165,7 @@ def gen_cases(run: Run, n: int):
                 cases.append(c)
                 continue
         i2, o2, drop = make_request(rng, ins, outs, mode)
-        cases.append(B.Case(i2, o2, drop, {"mode": mode, "legal": True}))
+        cases.append(B.Case(i2, o2, drop, {"mode": mode, "legal": mode != "output_name_clash"}))   # a name clash may be refused
     return cases, g.hist
 
 
